@@ -69,7 +69,8 @@ def main():
         tasks = [t for t in tasks if t.id in keep or any(t.id.startswith(k) for k in keep)]
     ids = [t.id for t in tasks]
     bounded = {t.id: t.cfg.get('extra', {}).get('bounded') for t in tasks if t.cfg.get('extra', {}).get('bounded')}
-    results = run_tasks(f'props.{prop}', ids, tier, seed, jobs=a.jobs or None)
+    budgets = {t.id: t.cfg.get('extra', {}).get('task_timeout_s') for t in tasks if t.cfg.get('extra', {}).get('task_timeout_s')}
+    results = run_tasks(f'props.{prop}', ids, tier, seed, jobs=a.jobs or None, budgets=budgets)
     by, stats, errors = R.aggregate(results)
 
     exit_code = 0
@@ -95,6 +96,15 @@ def main():
     for k in dead:
         rep.say(f'CHECKER-ERROR property={prop}: cover {k} is unreachable (vacuous precondition or invariant)')
         exit_code = 3
+
+    # partial claims (indicator breadth): functions outside the engine's subset / time budget on THIS tree are not under contract;
+    # an obligation that was decided on the tree the lock was taken from and is missing now is still reported (lock check below)
+    not_under_contract = []
+    if getattr(mod, 'PARTIAL', False):
+        for k in [k for k in by if k.endswith(':in-subset') or k.endswith(':in-budget')]:
+            e = by.pop(k)
+            d = (e['unknown'][0].get('detail') if e['unknown'] else '') or ''
+            not_under_contract.append({'function': k.rsplit(':', 1)[0], 'reason': d[:160]})
 
     # split bounded stand-ins from proof obligations
     proof_obls = {}
@@ -203,6 +213,7 @@ def main():
         'mustfail_refuted': len(mustfail),
         'known_findings': rep.known_printed,
         'undecided': undecided,
+        'not_under_contract': not_under_contract,
         'samples': samples or [{'obligation': k, 'verdict': R.status_of(e)} for k, e in list(by.items())[:3]],
         'explanation': getattr(mod, 'EXPLANATION', ''),
         'exhaustive': False,
